@@ -359,6 +359,34 @@ func (g *cgen) enumSweep() []struct {
 
 // boundarySweep: every variable field of every body kind exactly at and one past its wire width
 // (255/256 octets, 65535/65536 octets, 255/256 arguments, argument of 255/256 octets).
+// minimalSweep: the smallest values of the argument-bearing bodies - every text field empty, arguments that are
+// empty (accounting allows them), one or two octets long, in numbers from 1 to 255
+func (g *cgen) minimalSweep() []struct {
+	k string
+	v tq.EncoderDecoder
+} {
+	type kv = struct {
+		k string
+		v tq.EncoderDecoder
+	}
+	var out []kv
+	for _, n := range []int{1, 2, 3, 10, 100, 255} {
+		for _, al := range []int{0, 1, 2} {
+			args := make(tq.Args, n)
+			for i := range args {
+				args[i] = tq.Arg(pad(al, 'x'))
+			}
+			out = append(out, kv{"AcctRequest", &tq.AcctRequest{Flags: 2, Method: 6, PrivLvl: 1, Type: 1, Service: 1, Args: args}})
+			out = append(out, kv{"AcctRequest", &tq.AcctRequest{Flags: 4, Method: 1, PrivLvl: 0, Type: 1, Service: 1, User: "u", Port: "p", Args: args}})
+			if al == 2 {
+				out = append(out, kv{"AuthorRequest", &tq.AuthorRequest{Method: 6, PrivLvl: 1, Type: 1, Service: 1, Args: args}})
+				out = append(out, kv{"AuthorReply", &tq.AuthorReply{Status: 1, Args: args}})
+			}
+		}
+	}
+	return out
+}
+
 func (g *cgen) boundarySweep() []struct {
 	k string
 	v tq.EncoderDecoder
@@ -490,6 +518,35 @@ func decodeFirst(rec *Rec, kind string, in []byte, spare int, reenc bool) {
 	rec.Emit(e)
 }
 
+// decodeAgain: decode b1 into a value, then b2 into the SAME value; what is recorded is the outcome of the second decode
+// (event "df" for b2, marked again: judged exactly like a first decode of b2)
+func decodeAgain(rec *Rec, kind string, b1, b2 []byte) {
+	v := newOf(kind)
+	if v == nil {
+		return
+	}
+	func() {
+		defer func() { recover() }()
+		v.UnmarshalBinary(append([]byte(nil), b1...))
+	}()
+	var err error
+	pn := ""
+	func() {
+		defer func() {
+			if p := recover(); p != nil {
+				pn = fmt.Sprint(p)
+			}
+		}()
+		err = v.UnmarshalBinary(append([]byte(nil), b2...))
+	}()
+	e := E{"e": "df", "k": kind, "b": B(b2), "spare": 0, "panic": pn != "", "pmsg": pn, "ok": err == nil && pn == "", "alloc": 0, "again": true,
+		"v": V{}, "ok2": false, "ok3": false, "v3": V{}}
+	if err == nil && pn == "" {
+		e["v"] = toJ(kind, v)
+	}
+	rec.Emit(e)
+}
+
 // mutate: truncations, single-field corruptions, oversized length fields, junk
 func (g *cgen) mutate(b []byte) []byte {
 	rng := g.rng
@@ -560,6 +617,10 @@ func cmdCodec(args []string) {
 		for _, kv := range g.boundarySweep() {
 			roundTrip(rec, kv.k, kv.v)
 		}
+		for _, kv := range g.minimalSweep() {
+			roundTrip(rec, kv.k, kv.v)
+			decodeFirst(rec, kv.k, rfcEnc(kv.v), 0, true)
+		}
 		for i := 0; i < n; i++ {
 			k := allKinds[i%len(allKinds)]
 			v := g.value(k, fitOnly, anyP)
@@ -571,6 +632,11 @@ func cmdCodec(args []string) {
 				b = g.mutate(b)
 			}
 			decodeFirst(rec, k, b, 0, true)
+			if i%4 == 0 {
+				// the same decode target used twice (a reply variable outside a loop): the second decode yields the second byte string
+				w1 := g.value(k, true, 0)
+				decodeAgain(rec, k, rfcEnc(w1), b)
+			}
 		}
 	case "c04":
 		kinds := append(append([]string{}, allKinds...), "Packet")
